@@ -126,7 +126,13 @@ func modeCors(c *Ctx) {
 					c.Viol("options-shadowed", "a declared OPTIONS operation did not handle the OPTIONS request", in, "OPTIONS "+t.Path, fmt.Sprintf("op=%q cors calls=%d notfound=%d", opRan, corsCalls, nf))
 				}
 			case !c.Case.Cors || !installed || !hasField:
-				if opRan != "" || corsCalls > 0 || nf != 1 {
+				// no pseudo-operation exists: the request is matched against the declared
+				// operations only (another, less literal template may declare OPTIONS)
+				if other, _ := rr.Match("OPTIONS", path); other != "" {
+					if opRan != "OPTIONS "+other || corsCalls > 0 {
+						c.Viol("preflight-not-notfound", "OPTIONS without CORS handler did not go to the declared OPTIONS operation that matches the path", in, "OPTIONS "+other, fmt.Sprintf("op=%q cors calls=%d notfound=%d", opRan, corsCalls, nf))
+					}
+				} else if opRan != "" || corsCalls > 0 || nf != 1 {
 					c.Viol("preflight-not-notfound", "OPTIONS to a path without OPTIONS operation and without CORS handler was not 'not found'", in, "not found", fmt.Sprintf("op=%q cors calls=%d notfound=%d", opRan, corsCalls, nf))
 				}
 			default:
